@@ -421,6 +421,18 @@ func run(c *core.Ctx) error {
 		return err
 	}
 
+	// ---- Engine C: concurrent readers while batches execute, judged by TraceKVConc
+	var runsC []*runC
+	for vi := range vars {
+		v := vars[vi]
+		for k := 0; k < c.Pick(2, 6); k++ {
+			runsC = append(runsC, generateC(v, dirFor(rn, &v), c.Seed*97+int64(k), c.Pick(40, 60), k%2 == 1)) // <= 60 batches: merged counts stay one-byte uvarints
+		}
+	}
+	if err := judgeC(c, rn, vars, runsC); err != nil {
+		return err
+	}
+
 	c.Extra("graphs", graphInfo)
 	pv := map[string]any{}
 	for k, v := range rn.st.perVar {
